@@ -38,7 +38,7 @@ VALS = {
     "exc": [("none", 0), ("exc", 1), ("exc", 2), ("warn", 1), ("dflt", 0), ("cls", 9), ("inst", 1)],
     "violation_type": [("none", 0), ("exc", 1), ("exc", 2), ("warn", 1), ("cls", 9), ("inst", 1)],
     "is_color": [("none", 0), ("bool", 0), ("bool", 1), ("int", 0), ("int", 1), ("str", 0)],
-    "hint_overrides": [("fd", 0), ("fd", 1), ("fd", 2), ("fd", 3), ("fd", 4), ("dict", 1)],
+    "hint_overrides": [("fd", 0), ("fd", 1), ("fd", 2), ("fd", 3), ("fd", 4), ("fd", 5), ("dict", 1)],
     "claw_skip_package_names": [("tuple", 0), ("tuple", 1), ("fset", 1), ("list", 1), ("tuple", 7)],
     "warning_cls_on_decorator_exception": [("wcls", 0), ("none", 0), ("warn", 1), ("cls", 9)],
 }
@@ -95,7 +95,8 @@ class _Cat:
         default = BeartypeConf()
         tower = {float: float | int, complex: complex | float | int}
         self.fd = {0: FrozenDict(), 1: FrozenDict({self.A: self.B}), 2: FrozenDict(tower),
-                   3: FrozenDict({float: int}), 4: FrozenDict({self.A: self.B, **tower})}
+                   3: FrozenDict({float: int}), 4: FrozenDict({self.A: self.B, **tower}),
+                   5: FrozenDict({float: float | int, complex: int})}
         self.FrozenDict = FrozenDict
 
     def conc(self, o, ty, v):
